@@ -188,7 +188,12 @@ type Knobs struct {
 	LRUReverse   bool `json:"lru_reverse,omitempty"`   // order in which a flush leaves its pages in the recency list
 	ForceFlush   bool `json:"force_flush,omitempty"`   // enforce C16's precondition: tick at a boundary when dirty pages near capacity
 	FlushMargin  int  `json:"flush_margin,omitempty"`  // ... i.e. when dirty >= capacity - margin (0 = 10)
-	CacheOnly    bool `json:"cache_only,omitempty"`    // C15 with ticks withheld: only the cache monitor and O-live are evaluated
+	CacheOnly    bool `json:"cache_only,omitempty"`
+	// BiasKey / BiasLSN: right after CREATE DATABASE the counters in the file
+	// header are raised to these values (as if a long history lay behind), so
+	// that row ids and LSNs cross 2^8, 2^16, 2^24, 2^32 boundaries within a short run
+	BiasKey uint32 `json:"bias_key,omitempty"`
+	BiasLSN uint64 `json:"bias_lsn,omitempty"`    // C15 with ticks withheld: only the cache monitor and O-live are evaluated
 	CheckEvery   int  `json:"check_every,omitempty"`   // full contents check every k statements (0/1 = every statement)
 	TreeEvery    int  `json:"tree_every,omitempty"`    // tree walk every k statements (0 = never)
 	NoAutoRecheck bool `json:"-"`
